@@ -733,6 +733,7 @@ func TestC14(t *testing.T) {
 	})
 	hx.Each(s, c14Misplaced, true, c14MisplacedCases)
 	hx.Each(s, c14Statement, true, c14StatementCases)
+	hx.Run(s, c14Groups, s.N(3000, 40000))
 	hx.Run(s, c14Mutate, s.N(6000, 60000))
 	hx.Run(s, c14Soup, s.N(4000, 40000))
 }
